@@ -117,8 +117,8 @@ let run_for (which : string) (path : string) =
         mm ("supply[" ^ zs d ^ "]") (zs (m.sup d)) (zs iv)) !denoms;
     let sortv l = L.sort (fun (a : vault) b -> Z.compare (zz_of_z a.v_id) (zz_of_z b.v_id)) l in
     let sortsv l = L.sort (fun (a : svault) b -> Z.compare (zz_of_z a.sv_id) (zz_of_z b.sv_id)) l in
-    mm "vaults" (S.concat " " (L.map show_vault (sortv m.vaults))) (S.concat " " (L.map show_vault (sortv o.o_vaults)));
-    mm "stable_vaults" (S.concat " " (L.map show_svault (sortsv m.svaults))) (S.concat " " (L.map show_svault (sortsv o.o_svaults)));
+    mm "vaults" (S.concat ";" (L.map show_vault (sortv m.vaults))) (S.concat ";" (L.map show_vault (sortv o.o_vaults)));
+    mm "stable_vaults" (S.concat ";" (L.map show_svault (sortsv m.svaults))) (S.concat ";" (L.map show_svault (sortsv o.o_svaults)));
     L.iter (fun (e : epair) ->
         mm (Printf.sprintf "product[%s,%s]" (zs e.ep_app) (zs e.ep_id))
           (show_prod (m.prods e.ep_app e.ep_id)) (show_prod (Hashtbl.find_opt o.o_prods (key2 e.ep_app e.ep_id)));
